@@ -1,7 +1,319 @@
-(* Lemmas about Model/Anova.v (C13). *)
-From Coq Require Import List Arith Lia PeanoNat ZArith Bool Ring.
+(* Lemmas about Model/Anova.v (C13), part 1: pair_num_to_num, np.unique / sample statistics, order-1 cores. *)
+From Coq Require Import List Arith Lia PeanoNat ZArith Bool Ring Sorted.
 From TV Require Import Num.Ops Lin.Tab Lin.BigSum Lin.Mat TT.Chain Model.ActOne Model.Anova.
 Import ListNotations.
 
-Lemma pairs_example : pairs 3 = [(0, 1); (0, 2); (1, 2)].
+(* ---------- pair_num_to_num ---------- *)
+Definition prow (d i : nat) : list (nat * nat) := map (fun j => (i, j)) (seq (S i) (d - S i)).
+Definition poff (d i : nat) : nat := length (flat_map (prow d) (seq 0 i)).
+Lemma pairs_eq d : pairs d = flat_map (prow d) (seq 0 (d - 1)).
 Proof. reflexivity. Qed.
+Lemma prow_length d i : length (prow d i) = d - S i.
+Proof. unfold prow. now rewrite map_length, seq_length. Qed.
+Lemma poff_S d i : poff d (S i) = poff d i + (d - S i).
+Proof. unfold poff. rewrite seq_S, flat_map_app, app_length. simpl. rewrite app_nil_r, prow_length. reflexivity. Qed.
+Lemma poff_0 d : poff d 0 = 0. Proof. reflexivity. Qed.
+Lemma poff_closed d i : i <= d -> 2 * poff d i + i * (i + 1) = 2 * i * d.
+Proof.
+  induction i; intros H. - rewrite poff_0. lia.
+  - rewrite poff_S. specialize (IHi ltac:(lia)). nia.
+Qed.
+Lemma flat_map_seq_split {A} (f : nat -> list A) m i : i < m ->
+  flat_map f (seq 0 m) = flat_map f (seq 0 i) ++ f i ++ flat_map f (seq (S i) (m - S i)).
+Proof.
+  intros H. replace m with (i + S (m - S i)) at 1 by lia.
+  rewrite seq_app, flat_map_app. simpl. reflexivity.
+Qed.
+Lemma pairs_nth_off d i t : i < d - 1 -> t < d - S i -> 
+  poff d i + t < length (pairs d) /\ nth (poff d i + t) (pairs d) (0, 0) = (i, S i + t).
+Proof.
+  intros Hi Ht. rewrite pairs_eq, (flat_map_seq_split (prow d) (d - 1) i Hi). split.
+  - rewrite !app_length, prow_length. unfold poff. lia.
+  - unfold poff. rewrite app_nth2 by lia. replace (_ + t - _) with t by lia.
+    rewrite app_nth1 by (rewrite prow_length; lia). unfold prow.
+    rewrite nth_indep with (d' := (fun j => (i, j)) 0) by (rewrite map_length, seq_length; lia).
+    rewrite map_nth, seq_nth by lia. reflexivity.
+Qed.
+Lemma pairs_length d : length (pairs d) = poff d (d - 1).
+Proof. reflexivity. Qed.
+Lemma pairs_length_closed d : 2 * length (pairs d) = d * (d - 1).
+Proof.
+  rewrite pairs_length. destruct d; [reflexivity|]. pose proof (poff_closed (S d) (S d - 1) ltac:(lia)) as H.
+  replace (S d - 1) with d in * by lia. nia.
+Qed.
+Lemma poff_decomp d m n : n < poff d m -> exists i t, i < m /\ t < d - S i /\ n = poff d i + t.
+Proof.
+  induction m; intros H.
+  - rewrite poff_0 in H. lia.
+  - rewrite poff_S in H. destruct (Nat.lt_ge_cases n (poff d m)) as [L|L].
+    + destruct (IHm L) as (i & t & A & B & E). exists i, t. repeat split; auto.
+    + exists m, (n - poff d m). repeat split; lia.
+Qed.
+Lemma pair_num_lt d i j : i < j < d ->
+  pair_num (Z.of_nat d) (Z.of_nat i) (Z.of_nat j) = Ok (Z.of_nat (poff d i + (j - i - 1))).
+Proof.
+  intros H. unfold pair_num.
+  destruct (Z.eqb_spec (Z.of_nat i) (Z.of_nat j)) as [E|_]; [lia|].
+  destruct (Z.gtb_spec (Z.of_nat i) (Z.of_nat j)) as [E|_]; [lia|].
+  f_equal. pose proof (poff_closed d i ltac:(lia)) as C.
+  replace ((-3 + 2 * Z.of_nat d - Z.of_nat i) * Z.of_nat i)%Z with ((Z.of_nat (poff d i) - Z.of_nat i) * 2)%Z by nia.
+  rewrite Z.div_mul by lia. lia.
+Qed.
+Lemma pair_num_sym d x1 x2 : pair_num d x1 x2 = pair_num d x2 x1.
+Proof.
+  unfold pair_num. rewrite (Z.eqb_sym x2 x1). destruct (Z.eqb_spec x1 x2) as [E|NE]; [reflexivity|].
+  destruct (Z.gtb_spec x1 x2), (Z.gtb_spec x2 x1); try lia; reflexivity.
+Qed.
+Lemma pair_num_diag d x : pair_num d x x = Err AssertionError.
+Proof. unfold pair_num. now rewrite Z.eqb_refl. Qed.
+Lemma pair_num_nat_lt d i j : i < j < d -> pair_num_nat d i j = poff d i + (j - i - 1).
+Proof. intros H. unfold pair_num_nat. rewrite pair_num_lt by auto. apply Nat2Z.id. Qed.
+
+(* pair_num_to_num numbers the pairs i<j<d in the loop order of build_2, bijectively onto 0..d(d-1)/2-1 *)
+Theorem pair_num_bijection d :
+  2 * length (pairs d) = d * (d - 1) /\
+  (forall i j, i < j < d -> pair_num_nat d i j < length (pairs d) /\
+                            nth (pair_num_nat d i j) (pairs d) (0, 0) = (i, j)) /\
+  (forall n, n < length (pairs d) -> exists i j, i < j < d /\ pair_num_nat d i j = n /\ nth n (pairs d) (0, 0) = (i, j)).
+Proof.
+  split; [apply pairs_length_closed|]. split.
+  - intros i j H. rewrite pair_num_nat_lt by auto.
+    destruct (pairs_nth_off d i (j - i - 1)) as [A B]; try lia. split; [exact A|]. rewrite B. f_equal. lia.
+  - intros n Hn. rewrite pairs_length in Hn. destruct (poff_decomp d _ n Hn) as (i & t & A & B & E).
+    exists i, (S i + t). assert (HH : i < S i + t < d) by lia. split; [exact HH|].
+    rewrite pair_num_nat_lt by auto. split; [lia|]. subst n. apply pairs_nth_off; auto.
+Qed.
+Lemma pairs_In d i j : In (i, j) (pairs d) -> i < j < d.
+Proof.
+  intros H. apply (In_nth _ _ (0, 0)) in H as (n & Hn & E).
+  destruct (pair_num_bijection d) as (_ & _ & S). destruct (S n Hn) as (i' & j' & A & _ & B).
+  rewrite E in B. injection B as -> ->. exact A.
+Qed.
+
+(* ---------- np.unique: sorted, distinct, same elements ---------- *)
+Lemma zinsert_In x l y : In y (zinsert x l) <-> y = x \/ In y l.
+Proof.
+  induction l as [|z l IH]; cbn [zinsert In]; [intuition|].
+  destruct (Z.ltb_spec x z); [cbn [In]; intuition|].
+  destruct (Z.eqb_spec x z); [subst; cbn [In]; intuition|]. cbn [In]. rewrite IH. intuition.
+Qed.
+Lemma unique_In l y : In y (unique l) <-> In y l.
+Proof.
+  induction l as [|x l IH]; cbn [unique fold_right In]; [tauto|].
+  fold (unique l). rewrite zinsert_In, IH. intuition.
+Qed.
+Lemma zinsert_HdRel a x l : (a < x)%Z -> HdRel Z.lt a l -> HdRel Z.lt a (zinsert x l).
+Proof.
+  intros Hax H. destruct l as [|z l]; cbn [zinsert]; [constructor; auto|].
+  inversion H; subst. destruct (Z.ltb_spec x z); [constructor; auto|].
+  destruct (Z.eqb_spec x z); constructor; auto.
+Qed.
+Lemma zinsert_sorted x l : Sorted Z.lt l -> Sorted Z.lt (zinsert x l).
+Proof.
+  induction l as [|z l IH]; cbn [zinsert]; intros H; [repeat constructor|].
+  inversion H; subst. destruct (Z.ltb_spec x z); [constructor; auto|].
+  destruct (Z.eqb_spec x z); [auto|]. constructor; auto. apply zinsert_HdRel; auto. lia.
+Qed.
+Lemma unique_sorted l : Sorted Z.lt (unique l).
+Proof. induction l; cbn [unique fold_right]; [constructor|]. now apply zinsert_sorted. Qed.
+Lemma unique_NoDup l : NoDup (unique l).
+Proof.
+  pose proof (unique_sorted l) as H. apply Sorted_StronglySorted in H; [|intros a b c; lia].
+  induction H; constructor; auto. intros Hin. rewrite Forall_forall in H0. specialize (H0 _ Hin). lia.
+Qed.
+
+Lemma domain_length I : length (domain I) = dimI I.
+Proof. apply tab_length. Qed.
+Lemma domain_nth I k : k < dimI I -> nth k (domain I) [] = unique (column k I).
+Proof. intros. unfold domain. now rewrite nth_tab. Qed.
+
+Section Stats.
+Context {T : Type} (K : ops T).
+Notation "0" := (o0 K). Notation "1" := (o1 K).
+Infix "+" := (oadd K). Infix "*" := (omul K). Infix "-" := (osub K). Infix "/" := (odiv K).
+Hypothesis Rth : rng K.
+Add Ring RrAnovaS : Rth.
+(* what is used of a field of characteristic 0 *)
+Hypothesis Hdiv : forall a b, b <> 0 -> (a / b) * b = a.
+Hypothesis Hnat : forall n, natT K (S n) <> 0.
+
+Lemma mean_spec l : l <> [] -> mean K l * natT K (length l) = lsum K l.
+Proof. intros H. unfold mean. apply Hdiv. destruct l; [congruence|]. apply Hnat. Qed.
+
+Lemma sel_nonempty p (I : list (list Z)) (y : list T) : length I = length y ->
+  (exists row, In row I /\ p row = true) -> sel p I y <> [].
+Proof.
+  revert y; induction I as [|r I IH]; intros [|v y] L (row & Hin & Hp); try discriminate; [destruct Hin|].
+  unfold sel. cbn [combine filter fst]. destruct (p r) eqn:E; [cbn [map]; discriminate|].
+  destruct Hin as [->|Hin]; [congruence|]. apply IH; [cbn [length] in L; lia|eauto].
+Qed.
+Lemma build_1_nth dom I y f0 k pos : k < length dom -> pos < length (nth k dom []) ->
+  nth pos (nth k (build_1 K dom I y f0) []) 0
+  = mean K (sel (at_ k (nth pos (nth k dom []) 0%Z)) I y) - f0.
+Proof.
+  intros Hk Hp. unfold build_1. rewrite nth_tab by auto.
+  set (F := fun x : Z => mean K (sel (at_ k x) I y) - f0).
+  rewrite nth_indep with (d' := F 0%Z) by (now rewrite map_length). now rewrite map_nth.
+Qed.
+Lemma build_1_length dom I y f0 : length (build_1 K dom I y f0) = length dom.
+Proof. apply tab_length. Qed.
+Lemma build_1_shape dom I y f0 : map (@length T) (build_1 K dom I y f0) = shapes dom.
+Proof.
+  unfold build_1, shapes. rewrite map_tab. apply (list_eq_nth O).
+  - now rewrite tab_length, map_length.
+  - rewrite tab_length. intros k Hk. rewrite nth_tab, map_length by auto.
+    rewrite nth_indep with (d' := length (@nil Z)) by (now rewrite map_length). now rewrite map_nth.
+Qed.
+
+(* f0 is the sample mean; f1[k][x] + f0 is the mean of the samples whose k-th index is x;
+   the domain of mode k is the sorted list of the distinct observed values *)
+Theorem anova_stats I y order (M : anova T) : ANOVA K I y order = Ok M -> y <> [] -> length I = length y ->
+  a_dom M = domain I /\ a_d M = dimI I /\
+  (forall k, k < dimI I -> Sorted Z.lt (nth k (a_dom M) []) /\
+                           forall x, In x (nth k (a_dom M) []) <-> In x (column k I)) /\
+  a_f0 M * natT K (length y) = lsum K y /\
+  map (@length T) (a_f1 M) = shapes (a_dom M) /\
+  forall k pos, k < dimI I -> pos < length (nth k (a_dom M) []) ->
+    let s := sel (at_ k (nth pos (nth k (a_dom M) []) 0%Z)) I y in
+    s <> [] /\ (nth pos (nth k (a_f1 M) []) 0 + a_f0 M) * natT K (length s) = lsum K s.
+Proof.
+  unfold ANOVA. destruct (negb _); [discriminate|]. intros E Hy L. injection E as <-.
+  cbn [a_dom a_f0 a_f1]. unfold a_d. cbn [a_dom]. repeat split.
+  - apply domain_length.
+  - rewrite domain_nth by auto. apply unique_sorted.
+  - rewrite domain_nth by auto. apply unique_In.
+  - rewrite domain_nth by auto. apply unique_In.
+  - unfold build_0. now apply mean_spec.
+  - apply build_1_shape.
+  - apply sel_nonempty; auto. rewrite domain_nth in * by auto.
+    assert (Hin : In (nth pos (unique (column k I)) 0%Z) (column k I)) by (apply unique_In, nth_In; auto).
+    unfold column in Hin. apply in_map_iff in Hin as (row & E & Hin). exists row. split; auto.
+    unfold at_. now apply Z.eqb_eq.
+  - rewrite build_1_nth by (rewrite ?domain_length; auto).
+    match goal with |- (?m - ?f + ?f) * _ = _ => replace (m - f + f) with m by ring end.
+    apply mean_spec. apply sel_nonempty; auto. rewrite domain_nth in * by auto.
+    assert (Hin : In (nth pos (unique (column k I)) 0%Z) (column k I)) by (apply unique_In, nth_In; auto).
+    unfold column in Hin. apply in_map_iff in Hin as (row & E & Hin). exists row. split; auto.
+    unfold at_. now apply Z.eqb_eq.
+Qed.
+End Stats.
+
+Section Cores1.
+Context {T : Type} (K : ops T).
+Notation "0" := (o0 K). Notation "1" := (o1 K).
+Infix "+" := (oadd K). Infix "*" := (omul K). Infix "-" := (osub K).
+Hypothesis Rth : rng K.
+Add Ring RrAnova1 : Rth.
+
+(* the row vector carried along the order-1 chain: (1, s, 0, ..., 0) *)
+Definition sv (r : nat) (s : T) : list T := tab r (fun a => if a =? 0 then 1 else if a =? 1 then s else 0).
+Lemma sv_length r s : length (sv r s) = r. Proof. apply tab_length. Qed.
+
+Lemma bsum_two n f : (2 <= n)%nat -> (forall a, (2 <= a < n)%nat -> f a = 0) -> bsum K n f = f O + f 1%nat.
+Proof.
+  intros Hn H. destruct n as [|[|n]]; try lia.
+  rewrite (bsum_S_l K Rth), (bsum_S_l K Rth). rewrite bsum_0'; auto. - ring. - intros i Hi. apply H. lia.
+Qed.
+
+Lemma step_first r g f i : (2 <= r)%nat -> (i < length f)%nat ->
+  vstep K [1] (core1_first K r 0 g f) i = sv r (nth i f 0).
+Proof.
+  intros Hr Hi. unfold vstep, core1_first, ncore, sv. rewrite cr2_mk, cr1_mk. apply tab_ext; intros b Hb.
+  cbn [bsum nth]. rewrite cget_mk by lia.
+  destruct (b =? 0); [ring|]. destruct (b =? 1); ring.
+Qed.
+Lemma step_mid r g f i s : (2 <= r)%nat -> (i < length f)%nat ->
+  vstep K (sv r s) (core1_mid K r 0 g f) i = sv r (s + nth i f 0).
+Proof.
+  intros Hr Hi. unfold vstep, core1_mid, ncore. rewrite cr2_mk, cr1_mk. unfold sv at 2. apply tab_ext; intros b Hb.
+  rewrite bsum_two; auto.
+  - unfold sv. rewrite !nth_tab by lia. rewrite !cget_mk by lia. cbn [Nat.eqb andb].
+    destruct (Nat.eqb_spec b 0) as [->|Hb0]; cbn [Nat.eqb andb]; [ring|].
+    destruct (Nat.eqb_spec b 1) as [->|Hb1]; cbn [Nat.eqb andb]; ring.
+  - intros a Ha. unfold sv. rewrite nth_tab by lia.
+    destruct a as [|[|a]]; try lia. cbn [Nat.eqb]. ring.
+Qed.
+Lemma step_last r g f f0 i s : (2 <= r)%nat -> (i < length f)%nat ->
+  vstep K (sv r s) (core1_last K r 0 g f f0) i = [f0 + (s + nth i f 0)].
+Proof.
+  intros Hr Hi. unfold vstep, core1_last, ncore. rewrite cr2_mk, cr1_mk. cbn [tab map seq]. f_equal.
+  rewrite bsum_two; auto.
+  - unfold sv. rewrite !nth_tab by lia. rewrite !cget_mk by lia. cbn [Nat.eqb]. ring.
+  - intros a Ha. unfold sv. rewrite nth_tab by lia.
+    destruct a as [|[|a]]; try lia. cbn [Nat.eqb]. ring.
+Qed.
+
+(* the middle cores, processed one after the other *)
+Lemma run_mids r g (f1 : list (list T)) m : (2 <= r)%nat -> forall idxm s, length idxm = m ->
+  (forall t, (t < m)%nat -> (nth t idxm O < length (nth (S t) f1 []))%nat) ->
+  run K (sv r s) (tab m (fun t => core1_mid K r 0 (g (S t)) (nth (S t) f1 []))) idxm
+  = sv r (s + bsum K m (fun t => nth (nth t idxm O) (nth (S t) f1 []) 0)).
+Proof.
+  intros Hr. induction m; intros idxm s L H.
+  - destruct idxm; [|discriminate]. cbn [tab map seq run bsum]. f_equal. ring.
+  - destruct (@exists_last _ idxm) as (idx' & i & ->); [intros ->; discriminate|].
+    rewrite app_length in L. cbn [length] in L. assert (L' : length idx' = m) by lia.
+    rewrite tab_S. rewrite run_app by (now rewrite tab_length).
+    rewrite IHm; auto.
+    + cbn [run]. rewrite step_mid; auto.
+      * f_equal. cbn [bsum]. rewrite app_nth2 by lia. replace (m - length idx')%nat with O by lia. cbn [nth].
+        rewrite (bsum_ext K m (fun t => nth (nth t (idx' ++ [i]) O) (nth (S t) f1 []) 0)
+                             (fun t => nth (nth t idx' O) (nth (S t) f1 []) 0)). ring.
+        intros t Ht. now rewrite app_nth1 by lia.
+      * specialize (H m ltac:(lia)). rewrite app_nth2 in H by lia. replace (m - length idx')%nat with O in H by lia. exact H.
+    + intros t Ht. specialize (H t ltac:(lia)). now rewrite app_nth1 in H by lia.
+Qed.
+
+Theorem cores_1_get (M : anova T) r g idx : (2 <= r)%nat -> (2 <= a_d M)%nat -> length idx = a_d M ->
+  (forall k, (k < a_d M)%nat -> (nth k idx O < length (nth k (a_f1 M) []))%nat) ->
+  get K (cores_1 K M r 0 g) idx
+  = a_f0 M + bsum K (a_d M) (fun k => nth (nth k idx O) (nth k (a_f1 M) []) 0).
+Proof.
+  intros Hr Hd L H. unfold get, cores_1. set (f1 := a_f1 M) in *. set (d := a_d M) in *.
+  destruct d as [|[|m]] eqn:Ed; try lia. clear Hd.
+  destruct idx as [|i0 rest]; [discriminate|]. cbn [length] in L.
+  destruct (@exists_last _ rest) as (idxm & il & ->); [intros ->; discriminate|].
+  rewrite app_length in L. cbn [length] in L. assert (Lm : length idxm = m) by lia.
+  replace (S (S m) - 2)%nat with m by lia. replace (S (S m) - 1)%nat with (S m) by lia.
+  cbn [run]. rewrite step_first; auto.
+  2:{ apply (H O). lia. }
+  rewrite run_app by (now rewrite tab_length). rewrite run_mids; auto.
+  2:{ intros t Ht. specialize (H (S t) ltac:(lia)). cbn [nth] in H. now rewrite app_nth1 in H by lia. }
+  cbn [run]. rewrite step_last; auto.
+  2:{ specialize (H (S m) ltac:(lia)). cbn [nth] in H. rewrite app_nth2 in H by lia.
+      replace (m - length idxm)%nat with O in H by lia. exact H. }
+  cbn [nth]. f_equal. rewrite (bsum_S_l K Rth). cbn [bsum nth].
+  rewrite app_nth2 by lia. replace (m - length idxm)%nat with O by lia. cbn [nth].
+  rewrite (bsum_ext K m (fun i => nth (nth i (idxm ++ [il]) O) (nth (S i) f1 []) 0)
+                        (fun t => nth (nth t idxm O) (nth (S t) f1 []) 0)). ring.
+  intros t Ht. now rewrite app_nth1 by lia.
+Qed.
+
+(* shapes and ranks, any noise *)
+Lemma cores_1_shape (M : anova T) r noise g : (2 <= a_d M)%nat -> length (a_f1 M) = a_d M ->
+  shape (cores_1 K M r noise g) = map (@length T) (a_f1 M).
+Proof.
+  intros Hd L. unfold cores_1, shape. set (f1 := a_f1 M) in *. set (d := a_d M) in *.
+  apply (list_eq_nth O).
+  - cbn [map length]. rewrite !map_length, app_length, tab_length. cbn [length]. lia.
+  - cbn [map length]. rewrite map_length, app_length, tab_length. cbn [length]. intros k Hk.
+    rewrite nth_indep with (d' := length (@nil T)) (l := map _ f1) by (rewrite map_length; lia).
+    rewrite map_nth.
+    destruct k as [|k]; [reflexivity|]. cbn [nth]. rewrite map_app.
+    destruct (Nat.lt_ge_cases k (d - 2)) as [Hlt|Hge].
+    + rewrite app_nth1 by (now rewrite map_length, tab_length). rewrite map_tab, nth_tab by auto. reflexivity.
+    + rewrite app_nth2 by (rewrite map_length, tab_length; lia). rewrite map_length, tab_length.
+      replace (k - (d - 2))%nat with O by lia. cbn [map nth]. unfold core1_last, ncore. rewrite cn_mk.
+      f_equal. f_equal. lia.
+Qed.
+Lemma cores_1_ranks (M : anova T) r noise g : (2 <= a_d M)%nat ->
+  ranks (cores_1 K M r noise g) = 1%nat :: repeat r (a_d M - 1) ++ [1%nat].
+Proof.
+  intros Hd. unfold cores_1, ranks. set (d := a_d M) in *. f_equal. cbn [map]. rewrite map_app, map_tab. cbn [map].
+  unfold core1_first, core1_mid, core1_last, ncore. rewrite !cr2_mk.
+  replace (d - 1)%nat with (S (d - 2)) by lia. cbn [repeat app]. f_equal. f_equal.
+  generalize (d - 2)%nat as m. intros m. apply (list_eq_nth r).
+  - now rewrite tab_length, repeat_length.
+  - rewrite tab_length. intros k Hk. rewrite nth_tab by auto. rewrite cr2_mk. symmetry. apply nth_repeat.
+Qed.
+End Cores1.
